@@ -368,9 +368,11 @@ pub broadcast proof fn lemma_singleton(s: Seq<TelemetryEvent>)
     if s.len() == 1 { assert(s =~= seq![s[0]]); }
 }
 pub broadcast proof fn lemma_push_keeps_prefix<A>(s: Seq<A>, x: A, n: int)
-    ensures 0 <= n <= s.len() ==> #[trigger] s.push(x).subrange(0, n) == s.subrange(0, n)
+    ensures 0 <= n <= s.len() ==> #[trigger] s.push(x).subrange(0, n) == s.subrange(0, n),
+            n == s.len() ==> s.push(x).subrange(0, n) == s,
 {
     if 0 <= n <= s.len() { assert(s.push(x).subrange(0, n) =~= s.subrange(0, n)); }
+    if n == s.len() { assert(s.push(x).subrange(0, n) =~= s); }
 }
 pub broadcast group group_send_events { lemma_cnt_push, lemma_tevs_push, lemma_flat_push_cnt, lemma_singleton, lemma_push_keeps_prefix }
 
